@@ -29,6 +29,7 @@ package bed
 // 16000 bytes), "generic" otherwise.
 
 import (
+	"bufio"
 	"bytes"
 	"compress/gzip"
 	"errors"
@@ -59,6 +60,26 @@ var vbClauses = []vrClause{
 		Bound: "exhaustive: for every N in 3..12 all ordered pairs of a pool of 8 records of pairwise different written lengths (empty / long text, extreme ints, 0..3 blocks); all ordered pairs (N1,N2) of base records with different N (byte checks only); the N=12 pool in increasing and decreasing length order (windows of 6); then random lists of 2..6 random records of pairwise different written lengths (3/4 sharing one N) until the time budget",
 		Rule:  "every N in 3..12: MarshalText is called on every record of the list first and the returned slices are kept untouched; afterwards each kept slice == the bytes Write of that record puts into a fresh buffer (not clobbered by later MarshalText/Write calls); Write of all records into one shared buffer emits the concatenation of those bytes; if the records share one N, Reader over the kept slices joined and over the shared buffer gives back the records (first N fields) in order",
 		Gen:   vbGenMarshalList, Run: vbRunMarshalList},
+	{Prop: "C04", Name: "extern-split",
+		Bound: "exhaustive: for sep TAB and ',' every s over {sep, 'a', 0x00, 0xff} of length 0..6 (thorough 0..8); then 6000 (thorough 200000) random cases, fewer if the time share ends first: sep TAB or ',' (1 in 2) or a random byte 0..255, s of length 0..40 (1 in 8: 0..400) over {sep, sep, 'a', 'b', 0x00, 0xff, 0x80, LF}",
+		Rule:  "conformance of the ASSUMED contract of strings.Split with a one-byte separator (/verif/specs/00base.spec) with the real standard library; the repository is not called. fields := strings.Split(s, string([]byte{c})) of the real library; spec functions from the real result: splitN := len(fields), splitF(k) := fields[k], splitS(0) := 0, splitE(k) := splitS(k) + len(fields[k]), splitS(k+1) := splitE(k) + 1. Then every [splitN] axiom is evaluated literally, quantifiers by looping over all k and j: (1) splitN >= 1 && splitS(0) == 0 && splitE(splitN-1) == len(s); (2) 0 <= k < splitN ==> 0 <= splitS(k) <= splitE(k) <= len(s) && (k < splitN-1 ==> splitE(k) < len(s) && s[splitE(k)] == c && splitS(k+1) == splitE(k)+1) && (splitE(k) < len(s) ==> k < splitN-1); (3) 0 <= k < splitN && splitS(k) <= j < splitE(k) ==> s[j] != c; (4) len(splitF(k)) == splitE(k) - splitS(k); (5) 0 <= j < len(splitF(k)) ==> splitF(k)[j] == s[splitS(k)+j]. trivial: sep outside 0..255",
+		Gen:   vbxGenSplit, Run: vbxRunSplit},
+	{Prop: "C04", Name: "extern-itoa",
+		Bound: "exhaustive: x in -300..300, MinInt64, MinInt64+1, MaxInt64-1, MaxInt64, +-(10^k - 1), +-10^k, +-(10^k + 1) for k in 1..18, the 14 extreme values of the int pool of C04/roundtrip; texts s for ParseUint(s, 0, 8): every string of length 0..3 (thorough 0..4) over {0,1,2,5,6,9,x,b,o,_,-,+,f,space} and 24 fixed texts (255, 256, 0xff, 0x100, 0377, 0400, 0b11111111, 0o377, 2_5_5, ...); then 4000 (thorough 200000) random ints (pool, full 64-bit range, 0..999, +-10^6), fewer if the time share ends first",
+		Rule:  "conformance of the ASSUMED contracts of strconv.Itoa / Atoi / ParseUint(s, 0, 8) and of %v, %d of an int and of a byte (/verif/specs/00base.spec; extern.go renders %v/%d of int and byte operands as itoa) with the real standard library; the repository is not called. itoa(x) := strconv.Itoa(x); atoiOK(s), atoi(s) := (err == nil), value of strconv.Atoi(s); puintOK(s), puint(s) := (err == nil), value of strconv.ParseUint(s, 0, 8). Case {x}: fmt.Sprintf of %v and of %d of int x (and of byte(x) when 0 <= x <= 255) == itoa(x); axiom atoiOK(itoa(x)) && atoi(itoa(x)) == x; [itoa] len(itoa(x)) >= 1; [itoa] 0 <= j < len(itoa(x)) ==> itoa(x)[j] == '-' || '0' <= itoa(x)[j] <= '9'; puintOK(itoa(x)) ==> 0 <= puint(itoa(x)) <= 255; [puint] 0 <= x <= 255 ==> puintOK(itoa(x)) && puint(itoa(x)) == x. Case {s}: puintOK(s) ==> 0 <= puint(s) <= 255 (trivial when ParseUint fails)",
+		Gen:   vbxGenItoa, Run: vbxRunItoa},
+	{Prop: "C04", Name: "extern-trimsuffix",
+		Bound: "exhaustive: every s over {LF, CR, 'a', 0x00} of length 0..6 (thorough 0..8); then 3000 (thorough 100000) random s of length 0..60 over {LF, CR, 'a', 0x00, 0xff, TAB}, 1 in 2 with one of LF, CR, CR LF, LF CR, LF LF appended, fewer if the time share ends first",
+		Rule:  "conformance of the ASSUMED contract of strings.TrimSuffix(s, suf) for the constant suffixes LF and CR (/verif/govc/extern.go) with the real standard library; the repository is not called. For suf in {LF, CR}: hassuf := len(s) >= 1 && s[len(s)-1] == suf[0]; hassuf ==> TrimSuffix(s, suf) == s[0:len(s)-1]; !hassuf ==> TrimSuffix(s, suf) == s; and the composition used by the readers, TrimSuffix(TrimSuffix(s, LF), CR), equals the model applied twice",
+		Gen:   vbxGenTrimSuffix, Run: vbxRunTrimSuffix},
+	{Prop: "C04", Name: "extern-readstring",
+		Bound: "exhaustive: every stream over {LF, CR, 'a', 0x00} of length 0..6 (thorough 0..8); 36 long streams: 'a' or 'ab' LF repeated and cut to 4095, 4096, 4097, 8192, 10000, 70000 bytes followed by '', LF, LF 'b' (around the 4096-byte buffer of bufio.Reader); then 3000 (thorough 100000) random streams of length 0..200 (1 in 64: 0..9000) over {LF, LF, CR, 'a', 'b', 0x00, 0xff, TAB}, fewer if the time share ends first",
+		Rule:  "conformance of the ASSUMED contract of (*bufio.Reader).ReadString(LF) on an in-memory stream (/verif/govc/extern.go) with the real standard library; the repository is not called. The stream in[0..end) is read to its end three times: bufio.NewReader over bytes.NewReader, over bytes.NewBuffer, and bufio.NewReaderSize(.., 16) over bytes.NewReader. At every call with the model position pos: e := the position with pos <= e <= end, in[i] != LF for pos <= i < e, and (e < end ==> in[e] == LF); found := e < end; hi := found ? e+1 : end; the call must return exactly in[pos:hi] and the error nil if found, io.EOF if not; pos := hi. After the first io.EOF pos == end, the returned strings concatenated are the stream (successive calls partition it), and one more call returns the empty string and io.EOF",
+		Gen:   vbxGenReadString, Run: vbxRunReadString},
+	{Prop: "C04", Name: "extern-fprintf",
+		Bound: "exhaustive over operand pools for 15 (format, operand types) pairs (all formats of bed.go, fastq.go, fasta.go, the tag and line-end formats of sam.go, and two mixed ones): '%v TAB %v'(string,int), '%v TAB %v TAB %v'(string,int,int), 'TAB %v'(string), 'TAB %v'(int), ',%v'(int), '%v'(int), 'TAB %v,%v,%v'(byte,byte,byte), '%s TAB %d'(string,int), '@%s LF %s LF + LF %s LF'([]byte x3), '>%s LF'([]byte), '%s LF'([]byte), 'TAB %s'(string), 'TAB', 'LF', '%s TAB %d TAB %s'(string,int,string); pools: strings and []byte = every word over {'%', 'a', TAB, LF, 0x00, 0xff} of length 0..3 when the format has one operand, 0..2 with two, 0..1 with three; int = {0, 1, -1, 9, 10, 255, 256, -300, 1000000, MaxInt64, MinInt64}; byte = {0, 1, 9, 10, 99, 100, 255}; then 4000 (thorough 200000) random cases: a format of the table with random operands (texts of length 0..12 over that alphabet and 'v', 'd', 's', '!', '('; ints from the pool / full range; bytes 0..255), fewer if the time share ends first",
+		Rule:  "conformance of the ASSUMED contract of fmt.Fprintf with a constant format (/verif/govc/extern.go) with the real standard library; the repository is not called. The expected bytes are built without fmt: the literal parts of the format in order (%% = '%'), each verb replaced by its operand: string with %v/%s and []byte with %s verbatim, int and byte with %v/%d as strconv.Itoa. Fprintf to a counting writer must return len(expected), nil, have written exactly the expected bytes, in exactly ONE call of w.Write; and to a writer whose first Write accepts only half of the bytes and returns an error, Fprintf must return a non-nil error after exactly one Write call that was offered exactly the expected bytes. trivial: a (verb, operand type) pair outside the model",
+		Gen:   vbxGenFprintf, Run: vbxRunFprintf},
 	{Prop: "C06", Name: "chunking",
 		Bound: "random well-formed / near-valid / random inputs x {every 2-chunk split, uniform chunk sizes 1..8, random schedules} x eof_with_data",
 		Rule:  "items of Reader on the chunked stream == items on bytes.Reader",
@@ -1839,4 +1860,536 @@ func vbRunStop(in map[string]any) vrResult {
 		return vrResult{Observed: fmt.Sprintf("%s; got %s", d, vbItemsDesc(got)), Expected: exp}
 	}
 	return vrResult{OK: true, Trivial: len(full) == 0}
+}
+
+// ---------------------------------------------------------------------------
+// C04/extern-*: conformance of the ASSUMED standard-library contracts (axioms of
+// /verif/specs/00base.spec, models of /verif/govc/extern.go) with the real
+// standard library. These clauses do not call the repository; they live here
+// because the proofs of C04 rest on these contracts.
+//
+// Inputs: extern-split {"s":[..],"sep":n}; extern-itoa {"x":n} or {"s":[..]};
+// extern-trimsuffix {"s":[..]}; extern-readstring {"pre":bytes,"data":bytes}
+// (stream = pre + data, compact form accepted); extern-fprintf
+// {"fmt":"..","ops":"..","args":[..]} (ops: one letter per operand, s string,
+// b []byte, i int, u byte; args: byte arrays / ints).
+
+func vbxFail(sig, exp, f string, a ...any) vrResult {
+	return vrResult{Observed: fmt.Sprintf(f, a...), Expected: exp, Signature: sig}
+}
+
+func vbxMax(g *vrGen, quick, thorough int) int { return vbMaxCases(g, quick, thorough) }
+
+// ---- extern-split
+
+var vbxSplitSeps = []byte{'\t', ','}
+
+func vbxGenSplit(g *vrGen) {
+	maxLen := 6
+	if g.Thorough() {
+		maxLen = 8
+	}
+	for _, c := range vbxSplitSeps {
+		vrWords([]byte{c, 'a', 0x00, 0xff}, maxLen, func(w []byte) bool {
+			g.Case(map[string]any{"s": vrB(w), "sep": int(c)})
+			return true
+		})
+	}
+	g.Exhaustive(true)
+	r := g.Rand
+	for i, max := 0, vbxMax(g, 6000, 200000); i < max && !g.Expired(); i++ {
+		c := byte(r.Intn(256))
+		if r.Intn(2) == 0 {
+			c = vbxSplitSeps[r.Intn(len(vbxSplitSeps))]
+		}
+		n := r.Intn(41)
+		if r.Intn(8) == 0 {
+			n = r.Intn(401)
+		}
+		g.Case(map[string]any{"s": vrB(vrRandWord(r, []byte{c, c, 'a', 'b', 0x00, 0xff, 0x80, '\n'}, n)), "sep": int(c)})
+	}
+}
+
+func vbxRunSplit(in map[string]any) vrResult {
+	const exp = "every [splitN] axiom of /verif/specs/00base.spec holds for the real strings.Split"
+	s := vrStr(in["s"])
+	ci := vrInt(in["sep"])
+	if ci < 0 || ci > 255 {
+		return vrResult{OK: true, Trivial: true}
+	}
+	c := byte(ci)
+	var fields []string
+	if p := vrCatch(func() { fields = strings.Split(s, string([]byte{c})) }); p != nil {
+		return vbxFail("extern:split", exp, "strings.Split(%q, %q) panics: %v", s, []byte{c}, p)
+	}
+	fail := func(f string, a ...any) vrResult {
+		return vbxFail("extern:split", exp, "strings.Split(%q, %q) = %q: %s", s, []byte{c}, fields, fmt.Sprintf(f, a...))
+	}
+	// the spec functions, from the real result
+	splitN := len(fields)
+	splitF := fields
+	splitS := make([]int, splitN+1)
+	splitE := make([]int, splitN)
+	for k := 0; k < splitN; k++ {
+		splitE[k] = splitS[k] + len(fields[k])
+		splitS[k+1] = splitE[k] + 1
+	}
+	at := func(j int) int { // s[j]; -1 outside s
+		if j < 0 || j >= len(s) {
+			return -1
+		}
+		return int(s[j])
+	}
+	// (1) splitN >= 1 && splitS(0) == 0 && splitE(splitN-1) == len(s)
+	if !(splitN >= 1 && splitS[0] == 0 && splitE[splitN-1] == len(s)) {
+		if splitN < 1 {
+			return fail("axiom (1): splitN = %d", splitN)
+		}
+		return fail("axiom (1): splitN = %d, splitS(0) = %d, splitE(splitN-1) = %d, len(s) = %d", splitN, splitS[0], splitE[splitN-1], len(s))
+	}
+	for k := 0; k < splitN; k++ {
+		// (2)
+		if !(0 <= splitS[k] && splitS[k] <= splitE[k] && splitE[k] <= len(s) &&
+			(!(k < splitN-1) || (splitE[k] < len(s) && at(splitE[k]) == int(c) && splitS[k+1] == splitE[k]+1)) &&
+			(!(splitE[k] < len(s)) || k < splitN-1)) {
+			return fail("axiom (2): k = %d, splitS(k) = %d, splitE(k) = %d, splitN = %d, len(s) = %d", k, splitS[k], splitE[k], splitN, len(s))
+		}
+		// (3) splitS(k) <= j < splitE(k) ==> s[j] != c
+		for j := splitS[k]; j < splitE[k]; j++ {
+			if !(at(j) != int(c)) {
+				return fail("axiom (3): k = %d, separator at j = %d inside field [%d, %d)", k, j, splitS[k], splitE[k])
+			}
+		}
+		// (4) len(splitF(k)) == splitE(k) - splitS(k)
+		if !(len(splitF[k]) == splitE[k]-splitS[k]) {
+			return fail("axiom (4): k = %d, len(splitF(k)) = %d, splitE(k) - splitS(k) = %d", k, len(splitF[k]), splitE[k]-splitS[k])
+		}
+		// (5) 0 <= j < len(splitF(k)) ==> splitF(k)[j] == s[splitS(k)+j]
+		for j := 0; j < len(splitF[k]); j++ {
+			if !(int(splitF[k][j]) == at(splitS[k]+j)) {
+				return fail("axiom (5): k = %d, j = %d, splitF(k)[j] = %d, s[splitS(k)+j] = %d", k, j, splitF[k][j], at(splitS[k]+j))
+			}
+		}
+	}
+	return vrResult{OK: true}
+}
+
+// ---- extern-itoa
+
+var vbxUintTexts = []string{"255", "256", "0255", "00255", "0xff", "0xFF", "0x100", "0Xff", "0377", "0400", "0b11111111", "0b100000000", "0o377", "0o400",
+	"2_5_5", "0x_ff", "0_377", "1_000", "+255", "-0", "-1", "25 5", "18446744073709551615", "18446744073709551616"}
+
+func vbxGenItoa(g *vrGen) {
+	x := func(v int) { g.Case(map[string]any{"x": vbEncInt(v)}) }
+	for v := -300; v <= 300; v++ {
+		x(v)
+	}
+	for _, v := range []int{math.MinInt64, math.MinInt64 + 1, math.MaxInt64 - 1, math.MaxInt64} {
+		x(v)
+	}
+	for k, p := 1, 10; k <= 18; k, p = k+1, p*10 {
+		for _, v := range []int{p - 1, p, p + 1} {
+			x(v)
+			x(-v)
+		}
+	}
+	for _, v := range vbIntPool {
+		x(v)
+	}
+	maxLen := 3
+	if g.Thorough() {
+		maxLen = 4
+	}
+	vrWords([]byte("012569xbo_-+f "), maxLen, func(w []byte) bool {
+		g.Case(map[string]any{"s": vrB(w)})
+		return true
+	})
+	for _, t := range vbxUintTexts {
+		g.Case(map[string]any{"s": vrS(t)})
+	}
+	g.Exhaustive(true)
+	for i, max := 0, vbxMax(g, 4000, 200000); i < max && !g.Expired(); i++ {
+		x(vbRandInt(g.Rand))
+	}
+}
+
+func vbxRunItoa(in map[string]any) vrResult {
+	const exp = "the itoa / atoi / puint axioms of /verif/specs/00base.spec hold for the real strconv.Itoa, Atoi, ParseUint(s, 0, 8) and %v, %d"
+	// puintOK(s) ==> 0 <= puint(s) && puint(s) <= 255
+	puintRange := func(s string) (vrResult, bool) {
+		u, err := strconv.ParseUint(s, 0, 8)
+		if err == nil && !(0 <= u && u <= 255) {
+			return vbxFail("extern:itoa", exp, "axiom puintOK(s) ==> 0 <= puint(s) <= 255: ParseUint(%q, 0, 8) = %d, nil", s, u), false
+		}
+		return vrResult{OK: true, Trivial: err != nil}, true
+	}
+	if sv, ok := in["s"]; ok && sv != nil {
+		r, _ := puintRange(vrStr(sv))
+		return r
+	}
+	x := vrInt(in["x"])
+	itoa := strconv.Itoa(x)
+	fail := func(f string, a ...any) vrResult {
+		return vbxFail("extern:itoa", exp, "x = %d, strconv.Itoa(x) = %q: %s", x, itoa, fmt.Sprintf(f, a...))
+	}
+	// %v and %d of an int, and of a byte, are rendered as itoa (extern.go, fprintf)
+	if got := fmt.Sprintf("%v", x); got != itoa {
+		return fail("%%v of the int renders %q", got)
+	}
+	if got := fmt.Sprintf("%d", x); got != itoa {
+		return fail("%%d of the int renders %q", got)
+	}
+	if 0 <= x && x <= 255 {
+		if got := fmt.Sprintf("%v", byte(x)); got != itoa {
+			return fail("%%v of the byte renders %q", got)
+		}
+		if got := fmt.Sprintf("%d", byte(x)); got != itoa {
+			return fail("%%d of the byte renders %q", got)
+		}
+	}
+	// atoiOK(itoa(x)) && atoi(itoa(x)) == x
+	if v, err := strconv.Atoi(itoa); !(err == nil && v == x) {
+		return fail("axiom atoiOK(itoa(x)) && atoi(itoa(x)) == x: Atoi = %d, %v", v, err)
+	}
+	// [itoa] len(itoa(x)) >= 1
+	if !(len(itoa) >= 1) {
+		return fail("axiom [itoa] len(itoa(x)) >= 1")
+	}
+	// [itoa] 0 <= j < len(itoa(x)) ==> itoa(x)[j] == '-' || ('0' <= itoa(x)[j] && itoa(x)[j] <= '9')
+	for j := 0; j < len(itoa); j++ {
+		if !(itoa[j] == '-' || ('0' <= itoa[j] && itoa[j] <= '9')) {
+			return fail("axiom [itoa] digits: byte %d at j = %d", itoa[j], j)
+		}
+	}
+	// puintOK(itoa(x)) ==> 0 <= puint(itoa(x)) <= 255
+	if r, ok := puintRange(itoa); !ok {
+		return r
+	}
+	// [puint] 0 <= x && x <= 255 ==> puintOK(itoa(x)) && puint(itoa(x)) == x
+	if 0 <= x && x <= 255 {
+		if u, err := strconv.ParseUint(itoa, 0, 8); !(err == nil && int(u) == x) {
+			return fail("axiom [puint]: ParseUint(itoa(x), 0, 8) = %d, %v", u, err)
+		}
+	}
+	return vrResult{OK: true}
+}
+
+// ---- extern-trimsuffix
+
+func vbxGenTrimSuffix(g *vrGen) {
+	maxLen := 6
+	if g.Thorough() {
+		maxLen = 8
+	}
+	vrWords([]byte{'\n', '\r', 'a', 0x00}, maxLen, func(w []byte) bool {
+		g.Case(map[string]any{"s": vrB(w)})
+		return true
+	})
+	g.Exhaustive(true)
+	r := g.Rand
+	tails := []string{"\n", "\r", "\r\n", "\n\r", "\n\n"}
+	for i, max := 0, vbxMax(g, 3000, 100000); i < max && !g.Expired(); i++ {
+		w := string(vrRandWord(r, []byte{'\n', '\r', 'a', 0x00, 0xff, '\t'}, r.Intn(61)))
+		if r.Intn(2) == 0 {
+			w += tails[r.Intn(len(tails))]
+		}
+		g.Case(map[string]any{"s": vrS(w)})
+	}
+}
+
+// vbxTrimModel is the model of strings.TrimSuffix(s, suf) for a one-byte suf (extern.go).
+func vbxTrimModel(s string, suf byte) string {
+	hassuf := len(s) >= 1 && s[len(s)-1] == suf
+	if hassuf {
+		return s[0 : len(s)-1]
+	}
+	return s
+}
+
+func vbxRunTrimSuffix(in map[string]any) vrResult {
+	const exp = "TrimSuffix(s, suf) == s[0:len(s)-1] if len(s) >= 1 && s[len(s)-1] == suf[0], else s (suf = LF, CR)"
+	s := vrStr(in["s"])
+	for _, suf := range []string{"\n", "\r"} {
+		if got, want := strings.TrimSuffix(s, suf), vbxTrimModel(s, suf[0]); !(got == want) {
+			return vbxFail("extern:trimsuffix", exp, "strings.TrimSuffix(%q, %q) = %q, the model gives %q", s, suf, got, want)
+		}
+	}
+	if got, want := strings.TrimSuffix(strings.TrimSuffix(s, "\n"), "\r"), vbxTrimModel(vbxTrimModel(s, '\n'), '\r'); !(got == want) {
+		return vbxFail("extern:trimsuffix", exp, "TrimSuffix(TrimSuffix(%q, LF), CR) = %q, the model gives %q", s, got, want)
+	}
+	return vrResult{OK: true}
+}
+
+// ---- extern-readstring
+
+func vbxGenReadString(g *vrGen) {
+	maxLen := 6
+	if g.Thorough() {
+		maxLen = 8
+	}
+	vrWords([]byte{'\n', '\r', 'a', 0x00}, maxLen, func(w []byte) bool {
+		g.Case(map[string]any{"pre": vrB(nil), "data": vrB(w)})
+		return true
+	})
+	for _, pat := range []string{"a", "ab\n"} {
+		for _, n := range []int{4095, 4096, 4097, 8192, 10000, 70000} {
+			for _, tail := range []string{"", "\n", "\nb"} {
+				g.Case(map[string]any{"pre": map[string]any{"pat": vrS(pat), "len": n}, "data": vrS(tail)})
+			}
+		}
+	}
+	g.Exhaustive(true)
+	r := g.Rand
+	for i, max := 0, vbxMax(g, 3000, 100000); i < max && !g.Expired(); i++ {
+		n := r.Intn(201)
+		if r.Intn(64) == 0 {
+			n = r.Intn(9001)
+		}
+		g.Case(map[string]any{"pre": vrB(nil), "data": vrB(vrRandWord(r, []byte{'\n', '\n', '\r', 'a', 'b', 0x00, 0xff, '\t'}, n))})
+	}
+}
+
+// vbxReadStringCheck reads the stream in through r to its end with
+// ReadString('\n') and compares every call with the model; "" if all agree.
+func vbxReadStringCheck(r *bufio.Reader, in []byte) string {
+	end, pos := len(in), 0
+	var all []byte
+	for call := 0; ; call++ {
+		if call > end+2 {
+			return fmt.Sprintf("no io.EOF after %d calls", call)
+		}
+		var str string
+		var err error
+		if p := vrCatch(func() { str, err = r.ReadString('\n') }); p != nil {
+			return fmt.Sprintf("call %d panics: %v", call, p)
+		}
+		// the model: e = the position with pos <= e <= end, in[i] != LF for pos <= i < e, e < end ==> in[e] == LF
+		e := pos
+		for e < end && in[e] != '\n' {
+			e++
+		}
+		found := e < end
+		hi := end
+		var wantErr error = io.EOF
+		if found {
+			hi, wantErr = e+1, nil
+		}
+		if !(str == string(in[pos:hi]) && err == wantErr) {
+			return fmt.Sprintf("call %d at position %d returns %s, %v; the model gives in[%d:%d] = %s, %v", call, pos,
+				vbxShort(str), err, pos, hi, vbxShort(string(in[pos:hi])), wantErr)
+		}
+		all = append(all, str...)
+		pos = hi
+		if !found {
+			break
+		}
+	}
+	if !(pos == end && bytes.Equal(all, in)) {
+		return fmt.Sprintf("the returned strings do not partition the stream: %d of %d bytes", len(all), end)
+	}
+	if str, err := r.ReadString('\n'); !(str == "" && err == io.EOF) {
+		return fmt.Sprintf("a call after io.EOF returns %s, %v; the model gives \"\", EOF", vbxShort(str), err)
+	}
+	return ""
+}
+
+func vbxShort(s string) string {
+	if len(s) > 60 {
+		return fmt.Sprintf("%q...(%d bytes)", s[:60], len(s))
+	}
+	return fmt.Sprintf("%q", s)
+}
+
+func vbxRunReadString(in map[string]any) vrResult {
+	const exp = "ReadString(LF) returns the bytes up to and including the next LF and nil, or the remaining bytes and io.EOF; successive calls partition the stream"
+	data := []byte(vbStr(in["pre"]) + vbStr(in["data"]))
+	for _, src := range []struct {
+		what string
+		r    *bufio.Reader
+	}{
+		{"bufio.NewReader(bytes.NewReader)", bufio.NewReader(bytes.NewReader(data))},
+		{"bufio.NewReader(bytes.NewBuffer)", bufio.NewReader(bytes.NewBuffer(append([]byte(nil), data...)))},
+		{"bufio.NewReaderSize(bytes.NewReader, 16)", bufio.NewReaderSize(bytes.NewReader(data), 16)},
+	} {
+		if obs := vbxReadStringCheck(src.r, data); obs != "" {
+			return vbxFail("extern:readstring", exp, "stream %s, %s: %s", vbxShort(string(data)), src.what, obs)
+		}
+	}
+	return vrResult{OK: true, Trivial: len(data) == 0}
+}
+
+// ---- extern-fprintf
+
+type vbxFormat struct{ f, ops string }
+
+// vbxFormats: the (format, operand types) pairs of the writers (bed.go,
+// fastq.go, fasta.go, sam.go); ops has one letter per operand: s string,
+// b []byte, i int, u byte.
+var vbxFormats = []vbxFormat{
+	{"%v\t%v", "si"}, {"%v\t%v\t%v", "sii"}, {"\t%v", "s"}, {"\t%v", "i"}, {",%v", "i"}, {"%v", "i"}, {"\t%v,%v,%v", "uuu"},
+	{"%s\t%d", "si"}, {"@%s\n%s\n+\n%s\n", "bbb"}, {">%s\n", "b"}, {"%s\n", "b"}, {"\t%s", "s"}, {"\t", ""}, {"\n", ""},
+	{"%s\t%d\t%s", "sis"},
+}
+
+var vbxFmtAlpha = []byte{'%', 'a', '\t', '\n', 0x00, 0xff}
+var vbxFmtInts = []int{0, 1, -1, 9, 10, 255, 256, -300, 1000000, math.MaxInt64, math.MinInt64}
+var vbxFmtBytes = []int{0, 1, 9, 10, 99, 100, 255}
+
+func vbxGenFprintf(g *vrGen) {
+	for _, ft := range vbxFormats {
+		wl := 4 - len(ft.ops) // word length of text operands: 3, 2, 1
+		if len(ft.ops) == 0 {
+			wl = 0
+		}
+		var words []any
+		vrWords(vbxFmtAlpha, wl, func(w []byte) bool {
+			words = append(words, vrB(w))
+			return true
+		})
+		pools := make([][]any, len(ft.ops))
+		for i := range pools {
+			switch ft.ops[i] {
+			case 's', 'b':
+				pools[i] = words
+			case 'i':
+				pools[i] = vbEncInts(vbxFmtInts)
+			case 'u':
+				pools[i] = vbEncInts(vbxFmtBytes)
+			}
+		}
+		args := make([]any, len(pools))
+		var rec func(i int)
+		rec = func(i int) {
+			if i == len(pools) {
+				g.Case(map[string]any{"fmt": ft.f, "ops": ft.ops, "args": append([]any{}, args...)})
+				return
+			}
+			for _, v := range pools[i] {
+				args[i] = v
+				rec(i + 1)
+			}
+		}
+		rec(0)
+	}
+	g.Exhaustive(true)
+	r := g.Rand
+	alpha := append(append([]byte{}, vbxFmtAlpha...), 'v', 'd', 's', '!', '(')
+	for i, max := 0, vbxMax(g, 4000, 200000); i < max && !g.Expired(); i++ {
+		ft := vbxFormats[r.Intn(len(vbxFormats))]
+		args := make([]any, len(ft.ops))
+		for j := range args {
+			switch ft.ops[j] {
+			case 's', 'b':
+				args[j] = vrB(vrRandWord(r, alpha, r.Intn(13)))
+			case 'i':
+				args[j] = vbEncInt(vbRandInt(r))
+			case 'u':
+				args[j] = r.Intn(256)
+			}
+		}
+		g.Case(map[string]any{"fmt": ft.f, "ops": ft.ops, "args": args})
+	}
+}
+
+// vbxRender builds the expected output without fmt, and the operands to pass
+// to Fprintf; ok is false for a (verb, operand type) pair outside the model.
+func vbxRender(f, ops string, args []any) (want []byte, operands []any, ok bool) {
+	ai := 0
+	for i := 0; i < len(f); i++ {
+		if f[i] != '%' {
+			want = append(want, f[i])
+			continue
+		}
+		i++
+		if i >= len(f) {
+			return nil, nil, false
+		}
+		if f[i] == '%' {
+			want = append(want, '%')
+			continue
+		}
+		if ai >= len(ops) || ai >= len(args) {
+			return nil, nil, false
+		}
+		verb := f[i]
+		switch op := ops[ai]; {
+		case op == 's' && (verb == 'v' || verb == 's'):
+			t := vrStr(args[ai])
+			want = append(want, t...)
+			operands = append(operands, t)
+		case op == 'b' && verb == 's':
+			t := vrBytes(args[ai])
+			want = append(want, t...)
+			operands = append(operands, t)
+		case op == 'i' && (verb == 'v' || verb == 'd'):
+			x := vrInt(args[ai])
+			want = append(want, strconv.Itoa(x)...)
+			operands = append(operands, x)
+		case op == 'u' && (verb == 'v' || verb == 'd'):
+			x := vrInt(args[ai])
+			if x < 0 || x > 255 {
+				return nil, nil, false
+			}
+			want = append(want, strconv.Itoa(x)...)
+			operands = append(operands, byte(x))
+		default:
+			return nil, nil, false
+		}
+		ai++
+	}
+	return want, operands, ai == len(ops) && ai == len(args)
+}
+
+// vbxCountWriter counts Write calls; failAfter >= 0: the first call accepts
+// only failAfter bytes and returns an error.
+type vbxCountWriter struct {
+	buf       bytes.Buffer
+	offered   []byte
+	calls     int
+	failAfter int
+}
+
+func (w *vbxCountWriter) Write(p []byte) (int, error) {
+	w.calls++
+	w.offered = append(w.offered, p...)
+	if w.failAfter >= 0 {
+		n := w.failAfter
+		if n > len(p) {
+			n = len(p)
+		}
+		w.buf.Write(p[:n])
+		return n, vbErrInjected
+	}
+	w.buf.Write(p)
+	return len(p), nil
+}
+
+func vbxRunFprintf(in map[string]any) vrResult {
+	const exp = "Fprintf writes exactly the literal parts and the renderings (strings and []byte verbatim, ints and bytes as Itoa) in ONE Write call and returns its length and nil; a failing writer makes it return a non-nil error"
+	f, ops := vbAnyStr(in["fmt"]), vbAnyStr(in["ops"])
+	args := vrList(in["args"])
+	want, operands, ok := vbxRender(f, ops, args)
+	if !ok {
+		return vrResult{OK: true, Trivial: true}
+	}
+	fail := func(ft string, a ...any) vrResult {
+		return vbxFail("extern:fprintf", exp, "Fprintf(w, %q, %#v): %s", f, operands, fmt.Sprintf(ft, a...))
+	}
+	w := &vbxCountWriter{failAfter: -1}
+	var n int
+	var err error
+	if p := vrCatch(func() { n, err = fmt.Fprintf(w, f, operands...) }); p != nil {
+		return fail("panics: %v", p)
+	}
+	if !(err == nil && n == len(want) && bytes.Equal(w.buf.Bytes(), want) && w.calls == 1) {
+		return fail("returns %d, %v after %d Write call(s) with %q; expected %d, nil after 1 Write call with %q", n, err, w.calls, w.buf.Bytes(), len(want), want)
+	}
+	fw := &vbxCountWriter{failAfter: len(want) / 2}
+	if p := vrCatch(func() { n, err = fmt.Fprintf(fw, f, operands...) }); p != nil {
+		return fail("failing writer: panics: %v", p)
+	}
+	if !(err != nil && fw.calls == 1 && bytes.Equal(fw.offered, want)) {
+		return fail("failing writer: returns %d, %v after %d Write call(s) offering %q; expected a non-nil error after 1 Write call offering %q", n, err, fw.calls, fw.offered, want)
+	}
+	return vrResult{OK: true}
 }
